@@ -122,3 +122,8 @@ PROPS["C20"]["rules"] += [("R40", link.r40_cbtime), ("R03", sched.r03_r09_step)]
 prop("C13", [("R30", link.r30_delay), ("R02", sched.r02_sched_agree)], "pending text")
 prop("C02", [("R05", sched.r05_select), ("R02", sched.r02_sched_agree), ("R03", sched.r03_r09_step)], "pending text")
 prop("C04", [("R09", sched.r09_structure), ("R09s", sched.r03_r09_step), ("R10", life.r10_stall), ("R10b", life.r10b_mustconnect), ("R02", sched.r02_sched_agree)], "pending text")
+
+from .rules import connect  # noqa: E402
+
+prop("C06", [("R11", connect.r11_r12_connect), ("R13", connect.r13_nodata), ("R14", connect.r14_doublepush),
+             ("R10", life.r10_stall), ("R10b", life.r10b_mustconnect), ("R06", life.r06_life)], "pending text")
